@@ -33,7 +33,7 @@ SHARDS = {"quick": 4, "thorough": 16}
 RULE = (
     "Call cases generated as in C02 (1..5 parameters, optional return annotation, focused variadic/broadcast modes), each "
     "parameter turned with probability ~1/4 into a Union whose first alternative binds fresh axes and then fails, ~1/5 into "
-    "PyTree[array,'T'|'S'|none] over 1..3 array leaves, ~1/12 into an annotation misuse; executed with typeguard and beartype, "
+    "PyTree[array,'T'|'S'|none] over 1..3 array leaves (a third of them with such a Union as leaf type), an extra parameter annotated with a class created afresh per function in a third of the cases, ~1/12 into an annotation misuse; executed with typeguard and beartype, "
     "positional/keyword calls, remove-typechecker-stack on/off (set after decoration). Non-trivial = rejected call where the "
     "failing check had bound >=1 name before failing, or an earlier Union alternative had been rolled back, or the failure is "
     "at the return value after >=1 binding; distinct by (annotations, values, flag)."
@@ -54,11 +54,21 @@ def entry_annotation(e):
         return Union[Shaped[np.ndarray, alt1], Shaped[np.ndarray, gc.spec_of(e)]]
     if e["kind"] == "pytree":
         leaf = Shaped[np.ndarray, gc.spec_of(e)]
+        if e.get("alt1"):
+            # leaf type is a Union whose first alternative binds fresh axes and then fails on every leaf
+            alt1 = dl.spec_spelling([gc.tok_from_json(j) for j in e["alt1"]])
+            leaf = Union[Shaped[np.ndarray, alt1], leaf]
         return PyTree[leaf, e["structure"]] if e.get("structure") else PyTree[leaf]
+    if e["kind"] == "cfg":
+        # a class created afresh for every decorated function, always under the same name: annotations that print
+        # alike but are different objects
+        return type("Cfg", (), {})
     raise AssertionError(e)
 
 
-def entry_value(e):
+def entry_value(e, ns=None):
+    if e["kind"] == "cfg":
+        return ns[f"A_{e['name']}"]()
     if e["kind"] == "pytree":
         return pt.build(gt.from_json(e["tree"]), lambda p: np.zeros(p))
     return np.zeros(tuple(e["shape"]))
@@ -66,6 +76,8 @@ def entry_value(e):
 
 def entry_model(e, m):
     """-> (allowed, new ctx, tentative, new_struct_name)"""
+    if e["kind"] == "cfg":
+        return {dl.TRUE}, m, 0, None
     ms = gc.meanings_of(e)
     if e["kind"] in ("array", "union"):
         o = dl.match(ms, e["shape"], m)
@@ -120,13 +132,13 @@ def check_case(ctx, case):
     if w["stage"] == "unspecified":
         ctx.classes["skipped-unspecified"] += 1
         return
-    desc = {"params": [(p["name"], p["kind"], gc.spec_of(p), p.get("structure"), p.get("shape", p.get("tree"))) for p in case["params"]],
+    desc = {"params": [(p["name"], p["kind"], gc.spec_of(p) if p["kind"] != "cfg" else "Cfg", p.get("structure"), p.get("shape", p.get("tree"))) for p in case["params"]],
             "ret": (gc.spec_of(case["ret"]), case["ret"]["shape"]) if case["ret"] else None, "flag": case["flag"]}
     for ck in ("typeguard", "beartype"):
         fn, ns = build(case, ck, case["fname"])
         ns["__ret"][0] = entry_value(case["ret"]) if case["ret"] else None
         for style in ("pos", "kw"):
-            vals = [entry_value(p) for p in case["params"]]
+            vals = [entry_value(p, ns) for p in case["params"]]
             args, kwargs = (vals, {}) if style == "pos" else ([], {p["name"]: v for p, v in zip(case["params"], vals)})
             jaxtyping.config.update("jaxtyping_remove_typechecker_stack", case["flag"])
             try:
@@ -198,7 +210,7 @@ def c13_case(draw):
     m = dl.MCtx()
     for e in case["params"] + ([case["ret"]] if case["ret"] else []):
         e["kind"] = "array"
-    for e in case["params"]:
+    for e in list(case["params"]):
         r = draw(st.integers(0, 11))
         ms = gc.meanings_of(e)
         if r <= 2 and len(e["shape"]) >= 1:
@@ -217,6 +229,9 @@ def c13_case(draw):
             e["kind"] = "pytree"
             e["structure"] = draw(st.sampled_from(["T", "T", "S", None]))
             e["tree"] = gt.to_json(gt.relabel(d, iter(shapes)))
+            if shapes[0] and draw(st.integers(0, 2)) == 0:
+                n0 = len(shapes[0])
+                e["alt1"] = [gc.tok_json(t) for t in [dl.Token("", "name", f"q{i}") for i in range(n0 - 1)] + [dl.Token("", "int", 99)]]
             del e["shape"]
         elif r == 5:
             # misuse
@@ -232,6 +247,9 @@ def c13_case(draw):
                 e["structure"] = "S Zunbound"
                 e["tree"] = gt.to_json(("tuple", [("leaf", list(e["shape"]))]))
                 del e["shape"]
+    if draw(st.integers(0, 2)) == 0:
+        pos = draw(st.integers(0, len(case["params"])))
+        case["params"].insert(pos, {"name": "cfg", "kind": "cfg", "tokens": []})
     case["flag"] = draw(st.sampled_from([True, False]))
     case["fname"] = draw(st.sampled_from(FNAMES))
     return case
